@@ -201,6 +201,7 @@ type FakeRW struct {
 	Body       bytes.Buffer
 	Conn       net.Conn
 	Hijacked   bool
+	HijackCalled bool
 	HijackErr  error
 	BrSize     int
 	Buffered   []byte // bytes already in the hijacked bufio.Reader
@@ -220,6 +221,7 @@ func (w *FakeRW) Write(p []byte) (int, error) {
 	return w.Body.Write(p)
 }
 func (w *FakeRW) Hijack() (net.Conn, *bufio.ReadWriter, error) {
+	w.HijackCalled = true
 	if w.HijackErr != nil {
 		return nil, nil, w.HijackErr
 	}
